@@ -6,7 +6,7 @@ import re
 LEVEL = 'proof'
 TRUSTED_BASE = ['CBMC 6.11 + cadical', 'tools/extract.py rewrite rules', 'detail::log2 = floor(log2) (C44: bsr axiom R18 + wrapper proved)',
                 'atomic RMW axiom: size_.fetch_add hands out disjoint index ranges, so every trigger index is reserved by exactly one growth']
-ASSUMPTIONS = ['indices below 2^47 (Traits::kMaxVectorSize bound), firstBucketShift_ <= 20',
+ASSUMPTIONS = ['indices below 2^24 in the quick tier and below 2^47 (Traits::kMaxVectorSize bound) in the thorough tier; firstBucketShift_ <= 20',
                'the buffers_ table is rendered by probes whose null-test answers are arbitrary; the spin-wait for a peer\'s allocation at the end of allocAsNecessaryImpl is dropped (progress, not decided)',
                'NOT decided: element construction, iterator/reference validity, the cached-pointer table, shrink/clear, the sequential API (C32)',
                'bucket loops are bounded by the constant 64 (table size): unwound completely',
@@ -47,15 +47,17 @@ def build(ctx):
                    ('R2', r'\(bool\)binfo\.bucket', '(binfo.bucket != 0)', 'opt'),
                    ('R16', ('block', r'for\s*\(size_t bucket = binfo\.bucket; bucket <= bend\.bucket; \+\+bucket\)\s*(?=\{)'), '/* spin until every bucket of the range has been published (progress: not decided) */', 1)])
     S = 'specs/c33_convec.c'
-    units = [Unit('detail::log2 (reference loop)', 'cbmc', S, 'AX_log2', defines={'STRATEGY': '0'}, unwind=66, expect=[r'postcondition'], timeout=300,
+    # quick: every index below 2^24 (bucket loops <= 26 iterations); thorough: the full Traits::kMaxVectorSize bound 2^47
+    IDXBITS, UNW = (24, 28) if ctx.tier == 'quick' else (47, 52)
+    units = [Unit('detail::log2 (reference loop)', 'cbmc', S, 'AX_log2', defines={'STRATEGY': '0', 'IDXBITS': '47'}, unwind=66, expect=[r'postcondition'], timeout=300,
                   assumptions=['reference loop for floor(log2) bounded by the bit width 64: unwound completely'])]
     for st, nm in ((0, 'kFullBufferAhead'), (1, 'kHalfBufferAhead'), (2, 'kAsNeeded')):
-        d = {'STRATEGY': str(st)}
+        d = {'STRATEGY': str(st), 'IDXBITS': str(IDXBITS)}
         common = dict(defines=d, inst=nm, timeout=900, object_bits=10)
         if st == 0:
             units.append(Unit('ConcurrentVector::bucketAndSubIndex', 'cbmc', S, 'CV_bucketAndSubIndex', replace=['AX_log2'], expect=[r'postcondition'], **common))
         units.append(Unit('ConVecBuffer::allocCheckIndex', 'cbmc', S, 'CV_allocCheckIndex', expect=[r'postcondition'], **common))
         units.append(Unit('ConVecBuffer::allocAsNecessaryImpl(index)', 'cbmc', S, 'CV_allocAsNecessary_one', replace=['CV_allocCheckIndex', 'CV_bucketAndSubIndex'], expect=[r'postcondition\.2'], **common))
-        units.append(Unit('ConVecBuffer::allocAsNecessaryImpl(range)', 'cbmc', S, 'CV_allocAsNecessary_range', replace=['CV_allocCheckIndex', 'CV_bucketAndSubIndex'], unwind=52,
-                          expect=[r'postcondition\.2', r'repo-assert|assertion'], assumptions=['bucket loops bounded by the number of buckets an index below 2^47 can reach (<= 48): unwound completely (52)'], **common))
+        units.append(Unit('ConVecBuffer::allocAsNecessaryImpl(range)', 'cbmc', S, 'CV_allocAsNecessary_range', replace=['CV_allocCheckIndex', 'CV_bucketAndSubIndex'], unwind=UNW,
+                          expect=[r'postcondition\.2', r'repo-assert|assertion'], assumptions=['bucket loops bounded by the number of buckets an index below the stated bound can reach: unwound completely'], **common))
     return units
